@@ -56,3 +56,36 @@ C[PA + 'add_internal_mod'] = dict(
               'ima(self_final, index) == CAT_ModList(ima(self, index), fix_list_of_mods(some(mods))))'),
              ('other-positions-kept', 'forall(lambda j: implies(j != index, imh(self_final, j) == imh(self, j) and implies(imh(self, j), ima(self_final, j) == ima(self, j))))'),
              ('nothing-else', _IOTH)])
+
+# the residue-modification setter with a value, and add_internal_mods in APPEND mode (what condense_static_mods writes through)
+C['peptacular.proforma.input_convert:fix_dict_of_mods'] = dict(
+    params=dict(mods='Dict[int,ModList]'), returns='Dict[int,ModList]', pure=True, trusted=True,
+    bounded_by='input normalisation of a position -> modifications dictionary: bounded/C20.py', ensures=[])
+C[PA + 'internal_mods.setter'] = dict(
+    params=dict(self='Annotation', value='Optional[Dict[int,ModList]]'), returns='None', mutates=['self'], raises={},
+    ensures=[('none-clears', 'implies(value is None, self_final._internal_mods is None)'),
+             ('a-value-is-stored-normalised', 'implies(value is not None, self_final._internal_mods is not None and '
+                                              'some(self_final._internal_mods) == fix_dict_of_mods(some(value)))'),
+             ('nothing-else', _IOTH)])
+_FX = 'fix_dict_of_mods(some(mods))'
+C[PA + 'add_internal_mods@append'] = dict(
+    params=dict(self='Annotation', mods='Optional[Dict[int,ModList]]', append='bool'), specialize=dict(append=True), returns='None', mutates=['self'], raises={},
+    ensures=[('none-changes-nothing', 'implies(mods is None, same(self_final._internal_mods, self._internal_mods))'),
+             ('first-modifications-are-the-normalised-dictionary',
+              # (normalised by the method and once more by the setter it goes through)
+              'implies(mods is not None and self._internal_mods is None, self_final._internal_mods is not None and '
+              'some(self_final._internal_mods) == fix_dict_of_mods(' + _FX + '))'),
+             ('given-positions-get-the-modifications-appended',
+              'implies(mods is not None and self._internal_mods is not None, forall(lambda j: implies(j in ' + _FX + ', imh(self_final, j) and '
+              'ima(self_final, j) == (CAT_ModList(ima(self, j), ' + _FX + '[j]) if imh(self, j) else ' + _FX + '[j]))))'),
+             ('other-positions-kept',
+              'implies(mods is not None and self._internal_mods is not None, forall(lambda j: implies(not (j in ' + _FX + '), '
+              'imh(self_final, j) == imh(self, j) and implies(imh(self, j), ima(self_final, j) == ima(self, j)))))'),
+             ('nothing-else', _IOTH)],
+    invariants={0: [('is-present', 'self._internal_mods is not None'),
+                    ('seen-positions-done', 'forall(lambda j: implies(j in _seen0, imh(self, j) and ima(self, j) == '
+                                            '(CAT_ModList(ima(old(self), j), mods[j]) if imh(old(self), j) else mods[j])))'),
+                    ('unseen-positions-kept', 'forall(lambda j: implies(not (j in _seen0), imh(self, j) == imh(old(self), j) and '
+                                              'implies(imh(old(self), j), ima(self, j) == ima(old(self), j))))'),
+                    ('nothing-else', ' and '.join('same(self.%s, old(self).%s)' % (g, g) for g in _ALL if g != '_internal_mods'))]},
+)
